@@ -772,4 +772,194 @@ theorem var_shared_growth_counterexample : ¬ history_safe_unguarded_full := by
   rw [getB_eq, hfreed] at hb
   cases hb
 
+/-! ## accessors that convert: the table of conversions, `length()`, `has`, `contains`, const look-ups (extension round) -/
+
+/-! ## conversion table -/
+
+/-- the type tag of every value, and which `is(t)` queries it answers: the 10 tags × 10 queries table -/
+theorem is_table (v : V) (t : Nat) :
+    isT v t = true ↔
+      (tagOf v = t ∨ (t = tNUMBER ∧ (tagOf v = tINT ∨ tagOf v = tFLOAT)) ∨
+        (t = tSTRING ∧ tagOf v = tSSTRING) ∨ (t = tSSTRING ∧ tagOf v = tSTRING)) := by
+  simp [isT, or_assoc]
+
+/-- an INT reads back the same through `int`, `Long`, `double`, `==`-value, `bool` and `toString` (its decimal digits) -/
+theorem conv_int (i : Int) (f : Nat) (h : Heap) :
+    toInt (.int i) = some i ∧ toLong (.int i) = some i ∧ toDouble (.int i) = some (.inl (Dy.ofInt i)) ∧
+    numOf (.int i) = some (Dy.ofInt i) ∧ Var.toBool (.int i) = (i != 0) ∧ toStr (f + 1) h (.int i) = .ok (intDigits i) ∧
+    lengthV h (.int i) = .ok 0 ∧ hasV h (.int i) [] = .ok false := by
+  refine ⟨rfl, rfl, rfl, rfl, rfl, rfl, rfl, rfl⟩
+
+/-- a NUMBER (or FLOAT) that holds an integer of the int range reads back that integer through `int` and `Long`, the same
+value through `double`, and compares equal (`==`) to the INT with that value, in both operand orders -/
+theorem conv_number_integer (i : Int) (hr : -2147483648 ≤ i ∧ i < 2147483648) (f : Nat) (h : Heap) :
+    toInt (mkDouble (Dy.ofInt i)) = some i ∧ toLong (mkDouble (Dy.ofInt i)) = some i ∧
+    toDouble (mkDouble (Dy.ofInt i)) = toDouble (mkInt i) ∧
+    toInt (mkFloat (Dy.ofInt i)) = some i ∧ toDouble (mkFloat (Dy.ofInt i)) = toDouble (mkInt i) ∧
+    numOf (mkDouble (Dy.ofInt i)) = numOf (mkInt i) ∧
+    eqV (f + 1) h (mkDouble (Dy.ofInt i)) (mkInt i) = .ok true ∧ eqV (f + 1) h (mkInt i) (mkDouble (Dy.ofInt i)) = .ok true ∧
+    Var.toBool (mkDouble (Dy.ofInt i)) = Var.toBool (mkInt i) := by
+  have h1 : -9223372036854775808 ≤ i ∧ i < 9223372036854775808 := by omega
+  simp [mkDouble, mkFloat, mkInt, toInt, toLong, toDouble, numOf, eqV, Var.toBool, trunc_ofInt, hr, h1, Dy.ofInt, Dy.norm]
+
+/-- `double → int` truncates toward zero: a NUMBER `m / 2^e` reads back `m tdiv 2^e` when that fits an int -/
+theorem conv_number_trunc (d : Dy) (hr : -2147483648 ≤ d.trunc ∧ d.trunc < 2147483648) :
+    toInt (.num d) = some (Int.tdiv d.m (2 ^ d.e)) ∧ toLong (.num d) = some (Int.tdiv d.m (2 ^ d.e)) := by
+  have h1 : -9223372036854775808 ≤ d.trunc ∧ d.trunc < 9223372036854775808 := by omega
+  simp [toInt, toLong, hr, h1]
+  simp [Dy.trunc]
+
+/-- BOOL, NUL, NONE: the fixed rows of the table -/
+theorem conv_fixed (b : Bool) (f : Nat) (h : Heap) :
+    toInt (.bool b) = some 0 ∧ toDouble (.bool b) = some (.inl (Dy.ofInt 0)) ∧ Var.toBool (.bool b) = b ∧
+    toStr (f + 1) h (.bool b) = .ok (if b then [116, 114, 117, 101] else [102, 97, 108, 115, 101]) ∧
+    toInt .null = some 0 ∧ toDouble .null = some (.inr ()) ∧ Var.toBool .null = false ∧ toStr (f + 1) h .null = .ok [110, 117, 108, 108] ∧
+    toInt .none = some 0 ∧ Var.toBool .none = false ∧ toStr (f + 1) h .none = .ok [63] ∧
+    lengthV h (.bool b) = .ok 0 ∧ lengthV h .null = .ok 0 ∧ lengthV h .none = .ok 0 := by
+  refine ⟨rfl, rfl, rfl, rfl, rfl, rfl, rfl, rfl, rfl, rfl, rfl, rfl, rfl, rfl⟩
+
+/-- a string Var (inline or heap stored): `String` conversion and `toString` give the bytes, `length()` their number,
+`bool` is "non-empty", and `int`/`double` agree on the decimal value of a plain decimal text -/
+theorem conv_string (s : Bytes) (f : Nat) (h : Heap) :
+    strOf (mkString s) = some s ∧ toStr (f + 1) h (mkString s) = .ok s ∧ lengthV h (mkString s) = .ok s.length ∧
+    Var.toBool (mkString s) = decide (s.length > 0) ∧ toInt (mkString s) = simpleDec s ∧ toLong (mkString s) = simpleDec s ∧
+    toDouble (mkString s) = (simpleDec s).map (fun i => .inl (Dy.ofInt i)) ∧ hasV h (mkString s) [] = .ok false := by
+  unfold mkString
+  by_cases hl : s.length < 8 <;> simp [hl, strOf, toStr, lengthV, Var.toBool, toInt, toLong, toDouble, hasV]
+
+/-- `length()` of an array / object is the number of elements / properties of the tree it denotes -/
+theorem length_container (f : Nat) (h : Heap) (v : V) (id : Nat) (t : Tree) (hv : handleOf v = some id)
+    (hc : content f h v = some t) :
+    ∃ n, lengthV h v = .ok n ∧ (∀ l, t = .arr l → n = l.length) ∧ (∀ l, t = .obj l → n = l.length) := by
+  cases f with
+  | zero => simp [content] at hc
+  | succ f =>
+    cases v <;> simp [handleOf] at hv
+    · rename_i j
+      subst hv
+      simp only [content] at hc
+      cases hb : getB h j with
+      | error e => simp [hb] at hc
+      | ok b =>
+        simp only [hb] at hc
+        cases hm : mapO b.items (fun kv => content f h kv.2) with
+        | none => simp [hm] at hc
+        | some ys =>
+          simp only [hm, Option.map_some, Option.some.injEq] at hc
+          subst hc
+          refine ⟨b.items.length, by simp [lengthV, hb, Except.map], ?_, ?_⟩
+          · intro l hl; cases hl; exact (mapO_length _ _ _ hm).symm
+          · intro l hl; cases hl
+    · rename_i j
+      subst hv
+      simp only [content] at hc
+      cases hb : getB h j with
+      | error e => simp [hb] at hc
+      | ok b =>
+        simp only [hb] at hc
+        cases hm : mapO b.items (fun kv => (content f h kv.2).map (fun t => (kv.1, t))) with
+        | none => simp [hm] at hc
+        | some ys =>
+          simp only [hm, Option.map_some, Option.some.injEq] at hc
+          subst hc
+          refine ⟨b.items.length, by simp [lengthV, hb, Except.map], ?_, ?_⟩
+          · intro l hl; cases hl
+          · intro l hl; cases hl; exact (mapO_length _ _ _ hm).symm
+
+/-- **has(k) ⇔ key present** — for an object whose `KeyVal` array is ascending (every object of every reachable state:
+`history_safe`), the binary search of `has` answers exactly "some property has key `k`"; on every other type tag `has`
+is false -/
+theorem has_iff_key_present (h : Heap) (id : Nat) (b : Block) (k : Bytes) (hb : getB h id = .ok b) (hs : SortedItems b.items) :
+    ∃ r, hasV h (.obj id) k = .ok r ∧ (r = true ↔ k ∈ b.items.map (·.1)) := by
+  refine ⟨(AslProofs.Map.lookup k b.items).isSome, by simp only [hasV, hb, AslProofs.Map.has_spec cmpB_strict hs k], ?_⟩
+  exact AslProofs.Map.lookup_isSome_iff
+
+theorem has_false_on_non_object (h : Heap) (v : V) (k : Bytes) (hv : typeOf v ≠ tOBJ) : hasV h v k = .ok false := by
+  cases v <;> first | rfl | (exfalso; exact hv rfl)
+
+/-- **operator[](key) const / operator()(key) on a missing key** gives `none` (the static `Var::none`), a present key
+gives the property stored under it, and any Var that is not an object gives `none` -/
+theorem const_key_lookup (h : Heap) (id : Nat) (b : Block) (k : Bytes) (hb : getB h id = .ok b) (hs : SortedItems b.items) :
+    stepConst h (.obj id) (.key k) = getKeyV h (.obj id) k ∧
+    (k ∉ b.items.map (·.1) → getKeyV h (.obj id) k = .ok .none ∧ hasV h (.obj id) k = .ok false) ∧
+    (∀ x, (k, x) ∈ b.items → getKeyV h (.obj id) k = .ok x ∧ hasV h (.obj id) k = .ok true ∧
+      ∀ t, hasTypeV h (.obj id) k t = .ok (isT x t)) := by
+  have hf := AslProofs.Map.find_spec cmpB_strict hs k
+  have hh := AslProofs.Map.has_spec cmpB_strict hs k
+  refine ⟨by simp only [stepConst, getKeyV, hb, hf], ?_, ?_⟩
+  · intro hk
+    have : AslProofs.Map.lookup k b.items = none := by
+      cases hl : AslProofs.Map.lookup k b.items with
+      | none => rfl
+      | some x => exact absurd (AslProofs.Map.lookup_isSome_iff.mp (by rw [hl]; rfl)) hk
+    simp [getKeyV, hasV, hb, hf, hh, this]
+  · intro x hx
+    have : AslProofs.Map.lookup k b.items = some x :=
+      AslProofs.Map.lookup_of_mem (AslProofs.Map.Sorted.keysNodup cmpB_strict hs) hx
+    simp [getKeyV, hasV, hasTypeV, hb, hf, hh, this]
+
+theorem const_lookup_on_other_tags (h : Heap) (v : V) (k : Bytes) (i : Nat) (hv : isPod v = true ∨ ∃ s, v = .str s) :
+    stepConst h v (.key k) = .ok .none ∧ stepConst h v (.idx i) = .ok .none ∧ getKeyV h v k = .ok .none ∧
+    hasV h v k = .ok false ∧ (∀ f x, containsV f h v x = .ok false) ∧ ∀ t, hasTypeV h v k t = .ok false := by
+  rcases hv with hv | ⟨s, rfl⟩
+  · cases v <;> simp [isPod] at hv <;> exact ⟨rfl, rfl, rfl, rfl, fun _ _ => rfl, fun _ => rfl⟩
+  · exact ⟨rfl, rfl, rfl, rfl, fun _ _ => rfl, fun _ => rfl⟩
+
+/-- **contains(x) ⇔ some element equals x** — on an array denoting the elements `ts`, `contains(x)` is true exactly when
+the tree `x` denotes is one of them (so: numbers by value across INT/NUMBER/FLOAT, strings by bytes, containers by
+content); on every other type tag it is false -/
+theorem contains_iff_content (f : Nat) (h : Heap) (id : Nat) (x : V) (ts : List Tree) (tx : Tree)
+    (hv : content (f + 1) h (.arr id) = some (.arr ts)) (hx : content f h x = some tx) :
+    ∃ r, containsV f h (.arr id) x = .ok r ∧ (r = true ↔ tx ∈ ts) := by
+  simp only [content] at hv
+  cases hb : getB h id with
+  | error e => simp [hb] at hv
+  | ok b =>
+    simp only [hb] at hv
+    cases hm : mapO b.items (fun kv => content f h kv.2) with
+    | none => simp [hm] at hv
+    | some ys =>
+      simp only [hm, Option.map_some, Option.some.injEq, Tree.arr.injEq] at hv
+      subst hv
+      obtain ⟨h1, h2⟩ := mapO_mem hm
+      have hall : ∀ kv ∈ b.items, ∃ r, eqV f h kv.2 x = .ok r := by
+        intro kv hkv
+        obtain ⟨y, _, hy⟩ := h1 kv hkv
+        obtain ⟨r, hr, _⟩ := eq_iff_content_aux f h kv.2 x y tx hy hx
+        exact ⟨r, hr⟩
+      obtain ⟨r, hr, hiff⟩ := anyE_spec (p := fun kv => eqV f h kv.2 x) b.items hall
+      refine ⟨r, by simp only [containsV, hb, containsL, hr], ?_⟩
+      rw [hiff]
+      constructor
+      · rintro ⟨kv, hkv, he⟩
+        obtain ⟨y, hy, hc⟩ := h1 kv hkv
+        obtain ⟨r', hr', hi⟩ := eq_iff_content_aux f h kv.2 x y tx hc hx
+        rw [he] at hr'; cases hr'
+        rw [← hi.mp rfl]; exact hy
+      · intro hmem
+        obtain ⟨kv, hkv, hc⟩ := h2 tx hmem
+        obtain ⟨r', hr', hi⟩ := eq_iff_content_aux f h kv.2 x tx tx hc hx
+        exact ⟨kv, hkv, by rw [hr', hi.mpr rfl]⟩
+
+
+/-- in every state reached by any history, `has` on any live object block answers exactly "key present" -/
+theorem has_iff_key_present_history (n : Nat) (ops : List Op) (id : Nat) (b : Block) (k : Bytes)
+    (hb : getB (run true (initState n) ops).heap id = .ok b) (ho : b.isObj = true) :
+    ∃ r, hasV (run true (initState n) ops).heap (.obj id) k = .ok r ∧ (r = true ↔ k ∈ b.items.map (·.1)) :=
+  has_iff_key_present _ id b k hb ((history_safe n ops).1.sorted id b hb ho)
+
+/-! the hypotheses of the accessor theorems are satisfiable -/
+example : ∃ b : Block, b.items ≠ [] ∧ ∃ r, hasV [some b] (.obj 0) [98] = .ok r ∧ (r = true ↔ [98] ∈ b.items.map (·.1)) :=
+  ⟨⟨true, [([97], V.int 1), ([98], V.null)], 3, 1⟩, by simp,
+    has_iff_key_present _ 0 _ [98] rfl (by simp only [SortedItems, AslProofs.Map.Sorted]; decide)⟩
+example : ∃ r, containsV 1 [some ⟨false, [([], V.int 1), ([], V.sstr [120])], 3, 1⟩] (.arr 0) (.num ⟨2, 1⟩) = .ok r ∧
+    (r = true ↔ Tree.num (Dy.ofInt 1) ∈ [Tree.num (Dy.ofInt 1), Tree.str [120]]) :=
+  contains_iff_content 1 _ 0 _ _ _ (by rfl) (by rfl)
+example : ∃ n, lengthV [some ⟨false, [([], V.int 1), ([], V.sstr [120])], 3, 1⟩] (.arr 0) = .ok n ∧
+    (∀ l, Tree.arr [Tree.num (Dy.ofInt 1), Tree.str [120]] = .arr l → n = l.length) ∧ (∀ l, Tree.arr [Tree.num (Dy.ofInt 1), Tree.str [120]] = .obj l → n = l.length) :=
+  length_container 2 _ (.arr 0) 0 _ rfl (by rfl)
+example : -2147483648 ≤ (Dy.mk 7 1).trunc ∧ (Dy.mk 7 1).trunc < 2147483648 := by decide
+example : -2147483648 ≤ (-5 : Int) ∧ (-5 : Int) < 2147483648 := by decide
+example : isPod (V.int 3) = true ∨ ∃ s, V.int 3 = .str s := Or.inl rfl
+
 end C04
